@@ -298,6 +298,46 @@ Theorem C11_relay_before_check_refuted :
 Proof. exact (conj relay_first_order_refuted cluster_relays_only_for_entitled). Qed.
 Print Assumptions C11_relay_before_check_refuted.
 
+(* ---- the per-client mapping index may be stale, dangling or incomplete; decisions are taken on the CURRENT store ------
+   w_index is an arbitrary list of (client, mapping id) entries (C11_party_only_mappings, C11_reach_only_own_target and the history
+   theorems quantify over it): list / config answers are the index re-read from the records and filtered by the record's CURRENT
+   parties; reach decisions (explicit and default DNS target) are taken on the current records.  Histories contain store events
+   (EvDelMap / EvSetParty / EvSetActive) besides registry events, so C11_history_dispatch and
+   C11_history_step_uses_current_identity say: every command is decided on the store and the registry as they are at dispatch. *)
+
+(* mapping #0 handed from client 1 to client 3 after it was indexed: the raw index still names it for client 1, the answers do not *)
+Theorem C11_listing_filtered_by_current_parties_raw_index_refuted :
+  conn_identity w_stale (KConn 1) = 1
+  /\ maplist_raw_index w_stale 1 = [0]
+  /\ res_dm (exec current_table w_stale (KConn 1) 0 (c_demo 74 None None)) = []
+  /\ res_dm (exec current_table w_stale (KConn 1) 0 (c_demo 50 None None)) = []
+  /\ ~ (exists m, In m (w_maps w_stale) /\ m_id m = 0 /\ partyP 1 m).
+Proof. exact stale_index_listing. Qed.
+Print Assumptions C11_listing_filtered_by_current_parties_raw_index_refuted.
+
+(* the default DNS target as found in the tree (taken from the index without asking who the listen client is now; repaired by
+   fixes/C11-dns-default-target-listen-check.diff) is refuted: the former listen client still reaches client 2 *)
+Theorem C11_lax_default_target_refuted :
+  res_deliv (exec (common_rows ++ lax_dns_rows) w_stale (KConn 1) 0 (c_demo 121 None None)) = [(2, 121, 0)]
+  /\ ~ reach_ok 1 w_stale (exec (common_rows ++ lax_dns_rows) w_stale (KConn 1) 0 (c_demo 121 None None))
+  /\ res_deliv (exec current_table w_stale (KConn 1) 0 (c_demo 121 None None)) = [].
+Proof. exact lax_default_target_refuted. Qed.
+Print Assumptions C11_lax_default_target_refuted.
+
+(* a remembered default target (a seeded breaking change) is refuted: after the mapping is deleted the cached decision still names
+   client 2, the decision on the current store names nobody; the history on the current table forwards only the first request *)
+Theorem C11_cached_decision_refuted :
+  let w1 := apply_event (EvDelMap 0) w_demo in
+  let cache := snd (dns_default_cached [] w_demo 1) in
+  fst (dns_default_cached [] w_demo 1) = 2
+  /\ fst (dns_default_cached cache w1 1) = 2
+  /\ default_target true 1 (client_mappings w1 1) = 0
+  /\ map res_deliv (fst (run_history current_table w_demo
+        [HCmd (KConn 1) 0 (c_demo 121 None None); HEv (EvDelMap 0); HCmd (KConn 1) 0 (c_demo 121 None None);
+         HEv (EvSetActive 1 false); HCmd (KConn 2) 0 (c_demo 90 (Some 0) None)])) = [[(2, 121, 0)]; []; []].
+Proof. exact cached_default_target_refuted. Qed.
+Print Assumptions C11_cached_decision_refuted.
+
 (* the three properties hold for ANY dispatch table whose rows carry the columns their effect class requires
    (row_sound: identity from the connection, auth gate, party relation) — the table is data, the check is boolean *)
 Theorem C11_any_sound_table :
